@@ -224,10 +224,14 @@ def evaluate(root, top='Manifest', subpath='', last_mtime=None,
             sysp = os.path.join(root, full)
             if any(i == full for i in m.ignores) or ignored(full):
                 continue
+            stat_err = None
             try:
                 isdir = stat.S_ISDIR(os.stat(sysp).st_mode)
-            except OSError:
+            except FileNotFoundError:
                 isdir = False
+            except OSError as e:
+                isdir = False
+                stat_err = e
             if isdir:
                 if full in merged:
                     seen.add(full)
@@ -242,7 +246,12 @@ def evaluate(root, top='Manifest', subpath='', last_mtime=None,
                 seen.add(full)
                 verdict_for(full, sysp)
             else:
-                if not os.path.exists(sysp) and os.path.islink(sysp):
+                if stat_err is not None:
+                    # cannot be inspected (ENOTDIR/ELOOP through a link):
+                    # a genuine OS error or a mismatch, never success
+                    m.offending[full] = f'stray, uninspectable: {stat_err}'
+                    m.inaccessible[full] = str(stat_err)
+                elif not os.path.exists(sysp) and os.path.islink(sysp):
                     m.dontcare[full] = 'dangling symlink without entry'
                 elif strictly_under_ignore(full):
                     m.dontcare[full] = 'stray beneath "IGNORE dir/"'
